@@ -416,7 +416,7 @@ const HOST_FUNCTIONS: &[&str] = &[
     "f := (a: int) -> (int) -> int { return (b: int) -> int { return a + b } }",
 ];
 
-fn host_vs_language(f: &Arc<Function>, args: &[Variable], args_lang: &[Variable], compare_results: bool, what: &str, rep: &mut Report) {
+fn host_vs_language(f: &Arc<Function>, args: &[Variable], args_lang: &[Variable], args_session: &[Variable], compare_results: bool, what: &str, rep: &mut Report) {
     rep.evaluations += 1;
     rep.count("host-call-comparisons");
     // host route
@@ -431,6 +431,46 @@ fn host_vs_language(f: &Arc<Function>, args: &[Variable], args_lang: &[Variable]
             other => Err(format!("other:{}", other.tag())),
         },
     };
+    // the host call run *unscoped* in a session that already holds variables named like everything the function's
+    // text mentions: the call must leave the session's variables alone (its frame is its own)
+    if let Ok(Ok(code)) = real::guarded(|| f.clone().create_call(args_session.to_vec())) {
+        let mut session = Interpreter::without_stdlib();
+        let mut idents: BTreeSet<String> = BTreeSet::new();
+        let mut cur = String::new();
+        for ch in what.chars().chain(std::iter::once(' ')) {
+            if ch.is_alphanumeric() || ch == '_' {
+                cur.push(ch);
+            } else {
+                if cur.chars().next().is_some_and(|c| c.is_alphabetic()) && cur.len() <= 12 {
+                    idents.insert(std::mem::take(&mut cur));
+                }
+                cur.clear();
+            }
+        }
+        for n in &idents {
+            session.insert(Arc::from(n.as_str()), Variable::String(Arc::from(format!("session-{n}"))));
+        }
+        let ran = real::guarded(|| {
+            real::arm(FUEL, real::DEFAULT_DEPTH);
+            code.exec_unscoped(&mut session)
+        });
+        simplesl::verif::set_fuel(u64::MAX);
+        if ran.is_ok() {
+            rep.count("host-call:unscoped-session-checked");
+            for n in &idents {
+                let want = Variable::String(Arc::from(format!("session-{n}")));
+                if session.get_variable(n) != Some(&want) {
+                    rep.violation(
+                        "c17:host-call:session-variable-overwritten",
+                        &format!("{what}: after the host call ran unscoped, the session's variable `{n}` is {} instead of its own value", session.get_variable(n).map_or("unbound".to_string(), |v| truncate(&canon(v), 80))),
+                        "c17-host",
+                        what,
+                    );
+                    break;
+                }
+            }
+        }
+    }
     // in-language route: bind the function and the arguments as interpreter variables
     let mut interp = Interpreter::with_stdlib();
     interp.insert(Arc::from("callee__"), Variable::Function(f.clone()));
@@ -491,10 +531,12 @@ fn check_host_calls(f: &Arc<Function>, what: &str, rng: &mut Rng, rep: &mut Repo
     for round in 0..6 {
         // the same arguments are generated twice (equal contents, distinct cells): one set per route
         let mut rng_b = rng.clone();
+        let mut rng_c = rng.clone();
         let args_lang = gen_args(&ps, round, &mut rng_b);
+        let args_session = gen_args(&ps, round, &mut rng_c);
         let args = gen_args(&ps, round, rng);
-        let (Some(args), Some(args_lang)) = (args, args_lang) else { return };
-        host_vs_language(f, &args, &args_lang, compare_results, what, rep);
+        let (Some(args), Some(args_lang), Some(args_session)) = (args, args_lang, args_session) else { return };
+        host_vs_language(f, &args, &args_lang, &args_session, compare_results, what, rep);
     }
 }
 
